@@ -59,8 +59,13 @@ func runRevStore(r *simcore.Run, thorough bool) {
 	k0 := uint64(0)
 	switch t.CfgDraw(4) {
 	case 2:
-		b := 3 + t.CfgDraw(44)
+		// b up to 47: the stream then crosses 2^47 received secrets, where
+		// the store fills its 48th and last bucket
+		b := 3 + t.CfgDraw(45)
 		k0 = (uint64(1) << uint(b)) - uint64(t.CfgDraw(6))
+		if b == 47 && k0 == uint64(1)<<47 {
+			k0-- // start below the boundary and stream across it
+		}
 		if t.CfgDraw(3) == 0 && b < 44 {
 			// several high bits set: j * 2^b - c
 			k0 = (uint64(1+t.CfgDraw(7)) << uint(b)) - uint64(t.CfgDraw(6))
@@ -69,7 +74,11 @@ func runRevStore(r *simcore.Run, thorough bool) {
 		for i := 0; i < 6; i++ {
 			k0 = k0<<8 | uint64(t.CfgDraw(256))
 		}
-		k0 &= (uint64(1) << 47) - 1
+		// anywhere in the 48-bit index space that leaves room for the stream
+		k0 &= (uint64(1) << 48) - 1
+		if lim := (uint64(1) << 48) - 1 - 40000; k0 > lim {
+			k0 = lim
+		}
 	}
 	r.Logf("revstore: seed=%x n=%d faultRate=1/%d start=%d", seed[:4], n, faultRate, k0)
 
@@ -142,7 +151,15 @@ func runRevStore(r *simcore.Run, thorough bool) {
 			b.WriteByte(byte(next >> uint(56-8*i)))
 		}
 		ns, err := shachain.NewRevocationStoreFromBytes(bytes.NewReader(b.Bytes()))
-		if err != nil {
+		if err != nil && len(elems) <= 48 {
+			// The bytes are the store's own serialisation of a state BOLT-3
+			// defines (at most 48 buckets for a 48-bit index space; bucket
+			// b holds the last received index with b trailing zero bits,
+			// the secrets are the honest ones): a store that can hold
+			// this state must be able to load it. (On the unchanged tree
+			// every assembled state loads and answers every lookup.)
+			r.Fail("store-decode", "the store state after %d received secrets (%d buckets) cannot be loaded from its serialisation: %v", k0, len(elems), err)
+		} else if err != nil {
 			r.Harness("assembled store for %d received secrets does not load: %v", k0, err)
 		}
 		store = ns
@@ -266,6 +283,16 @@ func runRevStore(r *simcore.Run, thorough bool) {
 	store.Encode(&b)
 	if b.Len() > 1+49*(8+32)+8 {
 		r.Fail("store-size", "encoded store is %d bytes, more than 49 entries", b.Len())
+	}
+	// every run ends with a restart: whatever the store holds by now must
+	// survive its own serialisation and still answer for every height
+	ns, err := shachain.NewRevocationStoreFromBytes(bytes.NewReader(b.Bytes()))
+	if err != nil {
+		r.Fail("store-decode", "store does not survive serialisation after %d inserts: %v", accepted, err)
+	}
+	checkLookups(r, ns, accepted, honest, 48)
+	if uint64(accepted) >= uint64(1)<<47 {
+		r.Count("probe_store_restart_with_48_buckets")
 	}
 	r.Add("store_inserts", int64(accepted))
 	r.Nontrivial = accepted >= 8
